@@ -50,26 +50,38 @@ func (s snapshot) same(m *message.Message) bool {
 }
 
 type item struct {
-	ref  string
-	flag string
-	ctx  string
+	ref   string
+	flag  string
+	ctx   string
+	owner string // the marker found on the element's context: whose own context it (still) derives from
 }
 
 type pubCall struct {
 	pub   int
 	topic string
+	path  []int // publisher decorators this call passed, in the order passed
 	items []item
 }
 
+// markerKey: every message object carries, on its own context from its creation, the name of the object it is
+// (c / f<k> / m<k>); whoever replaces a message's context by one derived from another message is found out
+type markerKey struct{}
+
+func withMarker(parent context.Context, ref string) context.Context {
+	return context.WithValue(parent, markerKey{}, ref)
+}
+
 type copyInfo struct {
-	cancel context.CancelFunc // of the delivered message's own context (done modes)
-	d      *delivery
-	msg    *message.Message
-	snap   snapshot
-	fns    []int
-	ctx    string
-	settle string
-	calls  []*pubCall
+	cancel  context.CancelFunc // of the delivered message's own context (done modes)
+	d       *delivery
+	msg     *message.Message
+	snap    snapshot
+	fns     []int
+	ctx     string
+	settle  string
+	calls   []*pubCall
+	subPath []int // subscriber decorators the copy passed
+	pending []int // publisher decorators passed by the Publish call that is under way
 }
 
 type objInfo struct {
@@ -109,9 +121,13 @@ func (r *rec) publish(pub int, topic string, msgs []*message.Message) {
 		r.orphans++
 		return
 	}
-	call := &pubCall{pub: pub, topic: topic}
+	call := &pubCall{pub: pub, topic: topic, path: owner.pending}
+	owner.pending = nil
 	for _, m := range msgs {
-		it := item{ref: "x", flag: "M", ctx: ctx5(m.Context())}
+		it := item{ref: "x", flag: "M", ctx: ctx5(m.Context()), owner: "-"}
+		if mk, ok := m.Context().Value(markerKey{}).(string); ok {
+			it.owner = mk
+		}
 		if m == owner.msg {
 			it.ref = "c"
 			if owner.snap.same(m) {
@@ -126,6 +142,60 @@ func (r *rec) publish(pub int, topic string, msgs []*message.Message) {
 		call.items = append(call.items, it)
 	}
 	owner.calls = append(owner.calls, call)
+}
+
+// ownerOf: the consumed copy a message belongs to (the copy itself, or an object created while handling it)
+func (r *rec) ownerOf(m *message.Message) *copyInfo {
+	if c, ok := r.copies[m]; ok {
+		return c
+	}
+	if o, ok := r.objs[m]; ok {
+		return o.c
+	}
+	return nil
+}
+
+// recording publisher decorator number id: notes that the call passed it, then calls the wrapped publisher
+type decPub struct {
+	inner message.Publisher
+	id    int
+	r     *rec
+}
+
+func (d *decPub) Publish(topic string, msgs ...*message.Message) error {
+	d.r.mu.Lock()
+	if len(msgs) > 0 {
+		if c := d.r.ownerOf(msgs[0]); c != nil {
+			c.pending = append(c.pending, d.id)
+		}
+	}
+	d.r.mu.Unlock()
+	if d.inner == nil { // decorating the nil publisher of a handler registered without one
+		return message.ErrOutputInNoPublisherHandler
+	}
+	return d.inner.Publish(topic, msgs...)
+}
+
+func (d *decPub) Close() error {
+	if d.inner == nil {
+		return nil
+	}
+	return d.inner.Close()
+}
+
+func pubDecorator(id int, r *rec) message.PublisherDecorator {
+	return func(p message.Publisher) (message.Publisher, error) { return &decPub{p, id, r}, nil }
+}
+
+// recording subscriber decorator number id (watermill's own transform decorator)
+func subDecorator(id int, r *rec) message.SubscriberDecorator {
+	return message.MessageTransformSubscriberDecorator(func(m *message.Message) {
+		r.mu.Lock()
+		if c, ok := r.copies[m]; ok {
+			c.subPath = append(c.subPath, id)
+		}
+		r.mu.Unlock()
+	})
 }
 
 // ---------------------------------------------------------------- publishers (three Go types, for the type names)
@@ -277,12 +347,19 @@ func unhex(s string) (string, bool) {
 	return string(b), true
 }
 
+// op: one step of building and starting the router, in request order
+type op struct {
+	kind string // "h" (AddHandler of hs[n]) | "D" (publisher decorator n) | "E" (subscriber decorator n) | "RUN"
+	n    int
+}
+
 type request struct {
 	subNames map[int]string
 	subOrder []int
 	pubNames map[int]string
 	hs       []hcfg
 	ds       []delivery
+	ops      []op
 }
 
 func parse(req string) (*request, bool) {
@@ -293,6 +370,18 @@ func parse(req string) (*request, bool) {
 	q := &request{subNames: map[int]string{}, pubNames: map[int]string{}}
 	names := map[string]bool{}
 	for _, t := range toks[1:] {
+		if t == "RUN" {
+			q.ops = append(q.ops, op{"RUN", 0})
+			continue
+		}
+		if !strings.Contains(t, "=") && len(t) >= 2 && (t[0] == 'D' || t[0] == 'E') {
+			id, err := strconv.Atoi(t[1:])
+			if err != nil || id < 0 {
+				return nil, false
+			}
+			q.ops = append(q.ops, op{t[:1], id})
+			continue
+		}
 		kv := strings.SplitN(t, "=", 2)
 		if len(kv) != 2 {
 			return nil, false
@@ -333,6 +422,7 @@ func parse(req string) (*request, bool) {
 			}
 			names[name] = true
 			q.hs = append(q.hs, hcfg{name, sub, st, f[3], pt, mw})
+			q.ops = append(q.ops, op{"h", len(q.hs) - 1})
 		case kv[0] == "d":
 			f := strings.Split(kv[1], ":")
 			if len(f) < 4 || len(f) > 6 {
@@ -457,6 +547,7 @@ func runCase(req string) (obs string) {
 					m = message.NewMessage(fmt.Sprintf("o-%d-%s", c.d.mid, it), []byte("out "+it))
 					m.Metadata.Set("from", strconv.Itoa(i))
 					m.Metadata.Set("k", it)
+					m.SetContext(withMarker(context.Background(), it))
 					fresh[it] = m
 					r.mu.Lock()
 					r.objs[m] = &objInfo{c, it, snap(m)}
@@ -482,6 +573,7 @@ func runCase(req string) (obs string) {
 				}
 				for k := 0; k < n; k++ {
 					m := message.NewMessage(fmt.Sprintf("w-%d-%d", c.d.mid, k), []byte("mw"))
+					m.SetContext(withMarker(context.Background(), "m"+strconv.Itoa(k)))
 					r.mu.Lock()
 					r.objs[m] = &objInfo{c, "m" + strconv.Itoa(k), snap(m)}
 					r.mu.Unlock()
@@ -491,30 +583,14 @@ func runCase(req string) (obs string) {
 			}
 		}
 	}
-	for i, h := range q.hs {
-		var hd *message.Handler
-		switch {
-		case h.pubSpec == "np":
-			f := fn(i, true)
-			hd = router.AddNoPublisherHandler(h.name, h.subTopic, subs[h.sub], func(msg *message.Message) error {
-				_, err := f(msg)
-				return err
-			})
-		case h.pubSpec == "nil":
-			hd = router.AddHandler(h.name, h.subTopic, subs[h.sub], h.pubTopic, nil, fn(i, false))
-		default:
-			p, _ := strconv.Atoi(h.pubSpec[1:])
-			hd = router.AddHandler(h.name, h.subTopic, subs[h.sub], h.pubTopic, pubs[p], fn(i, false))
-		}
-		if h.mwOut > 0 {
-			hd.AddMiddleware(mw(h.mwOut))
-		}
-	}
 	ctx, cancel := context.WithCancel(context.Background())
 	defer cancel()
 	runRet := make(chan error, 1)
-	go func() { runRet <- router.Run(ctx) }()
+	running := false
 	closeRouter := func() {
+		if !running {
+			return
+		}
 		done := make(chan struct{})
 		go func() { router.Close(); close(done) }()
 		select {
@@ -526,12 +602,68 @@ func runCase(req string) (obs string) {
 		case <-time.After(settleTimeout):
 		}
 	}
-	select {
-	case <-router.Running():
-	case e := <-runRet:
-		return "run-returned(" + wh.HexS(fmt.Sprint(e)) + ")"
-	case <-time.After(settleTimeout):
-		return "timeout-running"
+	var handles []*message.Handler
+	// Run (first) / RunHandlers (later); afterwards every handler added so far has been started
+	runHandlers := func() string {
+		if !running {
+			running = true
+			go func() { runRet <- router.Run(ctx) }()
+			select {
+			case <-router.Running():
+			case e := <-runRet:
+				return "run-returned(" + wh.HexS(fmt.Sprint(e)) + ")"
+			case <-time.After(settleTimeout):
+				return "timeout-running"
+			}
+		} else if err := router.RunHandlers(ctx); err != nil {
+			return "run-returned(" + wh.HexS(fmt.Sprint(err)) + ")"
+		}
+		for _, hd := range handles {
+			select {
+			case <-hd.Started():
+			case <-time.After(settleTimeout):
+				return "timeout-started"
+			}
+		}
+		return ""
+	}
+	for _, o := range q.ops {
+		switch o.kind {
+		case "D":
+			router.AddPublisherDecorators(pubDecorator(o.n, r))
+		case "E":
+			router.AddSubscriberDecorators(subDecorator(o.n, r))
+		case "RUN":
+			if e := runHandlers(); e != "" {
+				closeRouter()
+				return e
+			}
+		case "h":
+			i, h := o.n, q.hs[o.n]
+			var hd *message.Handler
+			switch {
+			case h.pubSpec == "np":
+				f := fn(i, true)
+				hd = router.AddNoPublisherHandler(h.name, h.subTopic, subs[h.sub], func(msg *message.Message) error {
+					_, err := f(msg)
+					return err
+				})
+			case h.pubSpec == "nil":
+				hd = router.AddHandler(h.name, h.subTopic, subs[h.sub], h.pubTopic, nil, fn(i, false))
+			default:
+				p, _ := strconv.Atoi(h.pubSpec[1:])
+				hd = router.AddHandler(h.name, h.subTopic, subs[h.sub], h.pubTopic, pubs[p], fn(i, false))
+			}
+			if h.mwOut > 0 {
+				hd.AddMiddleware(mw(h.mwOut))
+			}
+			handles = append(handles, hd)
+		}
+	}
+	// whatever has not been started yet is started before the messages arrive
+	if e := runHandlers(); e != "" {
+		closeRouter()
+		return e
 	}
 	// feed every subscription with the deliveries of its (subscriber, topic), concurrently across subscriptions
 	type feed struct {
@@ -576,9 +708,7 @@ func runCase(req string) (obs string) {
 						base, cancelMsg = context.WithTimeout(base, 2*time.Millisecond)
 					}
 					defer cancelMsg()
-					if d.ctx != "" || d.done != "" {
-						m.SetContext(base)
-					}
+					m.SetContext(withMarker(base, "c"))
 					c := &copyInfo{d: d, msg: m, snap: snap(m), settle: "T", cancel: cancelMsg}
 					r.mu.Lock()
 					r.copies[m] = c
@@ -653,13 +783,13 @@ func runCase(req string) (obs string) {
 				for k, call := range c.calls {
 					its := make([]string, len(call.items))
 					for x, it := range call.items {
-						its[x] = it.ref + "~" + it.flag + "~" + it.ctx
+						its[x] = it.ref + "~" + it.flag + "~" + it.ctx + "~" + it.owner
 					}
-					cs[k] = "P" + strconv.Itoa(call.pub) + "@" + wh.HexS(call.topic) + "[" + strings.Join(its, ",") + "]"
+					cs[k] = "P" + strconv.Itoa(call.pub) + "@" + wh.HexS(call.topic) + "!" + pathText(call.path) + "[" + strings.Join(its, ",") + "]"
 				}
 				pubsTxt = strings.Join(cs, "+")
 			}
-			msgs = append(msgs, strings.Join([]string{strconv.Itoa(c.d.mid), fns, ctx, c.settle, pubsTxt}, "/"))
+			msgs = append(msgs, strings.Join([]string{strconv.Itoa(c.d.mid), fns, ctx, c.settle, pubsTxt, pathText(c.subPath)}, "/"))
 		}
 		o := "?"
 		if owner >= 0 {
@@ -676,6 +806,17 @@ func runCase(req string) (obs string) {
 
 // staleCtx builds a context that already carries router values (stale.go)
 var staleCtx = func(spec string) context.Context { return context.Background() }
+
+func pathText(p []int) string {
+	if len(p) == 0 {
+		return "-"
+	}
+	s := make([]string, len(p))
+	for i, x := range p {
+		s[i] = strconv.Itoa(x)
+	}
+	return strings.Join(s, ".")
+}
 
 // ---------------------------------------------------------------- generators
 
@@ -735,6 +876,32 @@ func randomCase(rng *wh.Rng) string {
 	for p := 1; p <= nP; p++ {
 		toks = append(toks, "P"+strconv.Itoa(p)+"="+wh.HexS(typeName(rng, "pub")))
 	}
+	// about a third of the configurations are built in steps: publisher / subscriber decorators, Run, handlers added
+	// to the running router, RunHandlers once or several times, more decorators in between
+	steps := rng.Intn(3) == 0
+	nextDec := 0
+	maybeStep := func() {
+		if !steps {
+			return
+		}
+		switch rng.Intn(6) {
+		case 0:
+			nextDec++
+			toks = append(toks, "D"+strconv.Itoa(nextDec))
+		case 1:
+			nextDec++
+			toks = append(toks, "E"+strconv.Itoa(nextDec))
+		case 2:
+			toks = append(toks, "RUN")
+			if rng.Intn(3) == 0 {
+				toks = append(toks, "RUN") // idempotent by contract
+			}
+		}
+	}
+	if steps && rng.Intn(2) == 0 {
+		nextDec++
+		toks = append(toks, "D"+strconv.Itoa(nextDec))
+	}
 	nameOff := rng.Intn(len(handlerNames))
 	type pair struct {
 		sub   int
@@ -761,7 +928,9 @@ func randomCase(rng *wh.Rng) string {
 		if rng.Intn(3) == 0 {
 			mw = 1 + rng.Intn(2)
 		}
+		maybeStep()
 		toks = append(toks, fmt.Sprintf("h=%s:%d:%s:%s:%s:%d", wh.HexS(name), sub, wh.HexS(st), spec, wh.HexS(pt), mw))
+		maybeStep()
 		if !seen[pair{sub, st}] {
 			seen[pair{sub, st}] = true
 			groups = append(groups, pair{sub, st})
@@ -932,6 +1101,36 @@ func doneCases(emit func(string, string)) {
 	}
 }
 
+// RunHandlers as an operation on a running router: decorators registered, handler A running, handler B (and C) added,
+// RunHandlers called one to three times, further decorators in between; then messages through all of them.  Every
+// output must pass each publisher decorator registered before ITS handler's start exactly once, every consumed message
+// each such subscriber decorator exactly once.
+func stepCases(emit func(string, string)) {
+	head := []string{"S1=" + wh.HexS("main.subA"), "S2=" + wh.HexS("main.subB"), "P1=" + wh.HexS("main.pubA"), "P2=" + wh.HexS("main.pubB")}
+	hA := fmt.Sprintf("h=%s:1:%s:p1:%s:0", wh.HexS("A"), wh.HexS("ta"), wh.HexS("oa"))
+	hB := fmt.Sprintf("h=%s:2:%s:p2:%s:1", wh.HexS("B"), wh.HexS("tb"), wh.HexS("ob"))
+	hC := fmt.Sprintf("h=%s:1:%s:np:-:1", wh.HexS("C"), wh.HexS("ta"))
+	hD := fmt.Sprintf("h=%s:2:%s:nil:%s:0", wh.HexS("D"), wh.HexS("tb"), wh.HexS("od"))
+	ds := []string{
+		fmt.Sprintf("d=1:%s:1:f0.f1", wh.HexS("ta")), fmt.Sprintf("d=2:%s:2:c.f0", wh.HexS("tb")),
+		fmt.Sprintf("d=1:%s:3:c", wh.HexS("ta")), fmt.Sprintf("d=2:%s:4:f0", wh.HexS("tb")),
+		fmt.Sprintf("d=1:%s:5:-", wh.HexS("ta")), fmt.Sprintf("d=2:%s:6:E", wh.HexS("tb"))}
+	progs := [][]string{
+		{"D1", hA, "RUN", hB, "RUN"},
+		{"D1", "E2", hA, "RUN", hB, "RUN", "RUN", "RUN"},
+		{"D1", "D2", "E3", "E4", hA, "RUN", "RUN", hB, "RUN"},
+		{"E1", hA, "RUN", "D2", hB, "RUN", "E3", hC, "RUN", "RUN"},
+		{hA, "RUN", "D1", "E2", hB, "RUN", hC, hD, "RUN"},
+		{"D1", "E2", hA, hB, "RUN", "RUN", "D3", hC, "RUN", "D4", "E5", hD, "RUN", "RUN"},
+		{"RUN", "D1", hA, "RUN", "E2", hB, "RUN"},
+		{"D1", "E2", hA, hB, hC, hD},
+	}
+	for _, pr := range progs {
+		toks := append(append(append([]string{}, head...), pr...), ds...)
+		emit("route "+strings.Join(toks, " "), "runhandlers_steps")
+	}
+}
+
 type job struct{ req, tag string }
 
 func main() {
@@ -964,6 +1163,7 @@ func main() {
 	}
 	staleCases(emit)
 	doneCases(emit)
+	stepCases(emit)
 	reqs := make([]string, len(jobs))
 	for i, j := range jobs {
 		reqs[i] = j.req
@@ -999,6 +1199,12 @@ func main() {
 				if f[5] != "0" {
 					out.Count("handler.with_middleware_outputs")
 				}
+			case t == "RUN":
+				out.Count("ops.RunHandlers")
+			case t[0] == 'D' && !strings.Contains(t, "="):
+				out.Count("ops.AddPublisherDecorators")
+			case t[0] == 'E' && !strings.Contains(t, "="):
+				out.Count("ops.AddSubscriberDecorators")
 			case strings.HasPrefix(t, "d="):
 				f := strings.Split(t[2:], ":")
 				switch {
